@@ -264,15 +264,20 @@ class URLInfo(object):
         if hostname.startswith('['):
             return cls.parse_ipv6_hostname(hostname)
         else:
-            # Map (IDNA) and lower-case first: a name may only become a
-            # numeric address through that, and must not wait for a second
-            # normalization to be recognised as one.
-            new_hostname = normalize_hostname(hostname)
+            try:
+                new_hostname = normalize_ipv4_address(hostname)
+            except ValueError:
+                # _logger.debug('', exc_info=True)
+                new_hostname = hostname
 
+            new_hostname = normalize_hostname(new_hostname)
+
+            # A name may only become a numeric address through the mapping
+            # and lower-casing above; it must not wait for a second
+            # normalization to be recognised as one.
             try:
                 new_hostname = normalize_ipv4_address(new_hostname)
             except ValueError:
-                # _logger.debug('', exc_info=True)
                 pass
 
             if any(char in new_hostname for char in FORBIDDEN_HOSTNAME_CHARS):
